@@ -43,6 +43,8 @@ func Replay(path string) error {
 		return CliReplayFile(path)
 	case "clisim-sweep":
 		return SweepReplay(path)
+	case "gensim-xproc":
+		return XprocReplay(path)
 	case "gensim":
 		return GenReplayFile(path)
 	}
